@@ -4,12 +4,13 @@
 //! the in-flight call reported) with RLIMIT_AS = 2 GiB (a runaway allocation aborts the worker).
 //!
 //! Records (ND-JSON, judged by spec/Trace_Totality.tla against spec/Totality.tla):
-//!   {"k":"t","fn":NAME,"v":VARIANT,"in":CLASS,"o":"ok|err|panic|timeout","probe":"ok|fail|-","poisoned":"t|f","nw":"t|f"}
-//!        one call; nw = "t": the call ran on a freshly built instance (pure helpers: always "t");
+//!   {"k":"t","fn":NAME,"v":VARIANT,"in":CLASS,"o":"ok|err|panic|timeout","probe":"ok|fail|-","poisoned":"t|f","nw":"t|f|p"}
+//!        one call; nw = "t": the call ran on a freshly built instance, "f": on the instance of the previous record,
+//!        "p": pure helper (no instance, no probe);
 //!        after every outcome other than ok the probe ran (exists("/") + mkdir_p/write_all/read_all/remove_all
 //!        round trip on /__probe); non-ok records carry the input ("a","b" char arrays, "e" error kind or panic
 //!        message); "x" (char array) asks the validator to compare ok/err with the PathLex expectation.
-//!   {"k":"s","fn":NAME,"in":CLASS,"o":"ok|err","n":COUNT,"probe":"ok|-","poisoned":"f","nw":"t"}
+//!   {"k":"s","fn":NAME,"in":CLASS,"o":"ok|err","n":COUNT,"probe":"ok|-","poisoned":"f","nw":"t|p"}
 //!        aggregate of plain ok / err(+successful probe) calls of the extended input layers
 //!   {"k":"m","calls":N,"bad":N,"rebuilds":N,...}   per-worker totals (last record)
 //! Usage: totality --tier quick|thorough --seed N --out FILE [--worker i --workers n] [--set all|vfs|pairs|pure|misc]
@@ -147,7 +148,7 @@ struct Ctx {
     fresh: bool,
     individual: bool,
     verbose: bool,
-    agg: BTreeMap<(String, String, &'static str), u64>,
+    agg: BTreeMap<(String, String, &'static str, &'static str), u64>,
     calls: u64,
     bad: u64,
     rebuilds: u64,
@@ -282,7 +283,7 @@ impl Ctx {
             (p, pr)
         };
         let wedge = poisoned || matches!(pr, Some(Err(_)));
-        self.emit(f, v, cls, o, e, ins, pr.as_ref(), poisoned, nw, None);
+        self.emit(f, v, cls, o, e, ins, pr.as_ref(), poisoned, if nw { "t" } else { "f" }, None);
         if wedge {
             // wedged forever?  one more call on the same instance
             let fs = self.fs.as_ref().unwrap();
@@ -294,7 +295,7 @@ impl Ctx {
             };
             let p2 = is_poisoned(fs);
             let pr2 = if o2 != O::Ok { Some(probe(fs)) } else { None };
-            self.emit("cwd", &format!("after-wedge-by:{}", f), cls, o2, &e2, ins, pr2.as_ref(), p2, false, None);
+            self.emit("cwd", &format!("after-wedge-by:{}", f), cls, o2, &e2, ins, pr2.as_ref(), p2, "f", None);
         }
         if mutator || o != O::Ok || wedge {
             self.dirty();
@@ -309,12 +310,12 @@ impl Ctx {
         if o == O::Ok && x.is_none() {
             self.individual = false;
         }
-        self.emit(f, v, cls, o, e, ins, None, false, true, x);
+        self.emit(f, v, cls, o, e, ins, None, false, "p", x);
         self.individual = keep;
     }
 
     #[allow(clippy::too_many_arguments)]
-    fn emit(&mut self, f: &str, v: &str, cls: &str, o: O, e: &str, ins: &[&str], pr: Option<&Result<(), String>>, poisoned: bool, nw: bool, x: Option<&str>) {
+    fn emit(&mut self, f: &str, v: &str, cls: &str, o: O, e: &str, ins: &[&str], pr: Option<&Result<(), String>>, poisoned: bool, nw: &'static str, x: Option<&str>) {
         self.calls += 1;
         self.counts[o as usize] += 1;
         let probe_s = match pr {
@@ -327,7 +328,7 @@ impl Ctx {
             eprintln!("{} [{}] {:?} -> {} {} probe={} {:?} poisoned={}", f, v, ins, o.s(), e, probe_s, pr, poisoned);
         }
         if !bad && !self.individual && x.is_none() {
-            *self.agg.entry((f.to_string(), cls.to_string(), o.s())).or_insert(0) += 1;
+            *self.agg.entry((f.to_string(), cls.to_string(), o.s(), if nw == "p" { "p" } else { "t" })).or_insert(0) += 1;
             return;
         }
         let mut r = Map::new();
@@ -338,7 +339,7 @@ impl Ctx {
         r.insert("o".into(), json!(o.s()));
         r.insert("probe".into(), json!(probe_s));
         r.insert("poisoned".into(), json!(if poisoned { "t" } else { "f" }));
-        r.insert("nw".into(), json!(if nw { "t" } else { "f" }));
+        r.insert("nw".into(), json!(nw));
         if let Some(xs) = x {
             r.insert("x".into(), chars(xs));
         }
@@ -1119,8 +1120,8 @@ fn main() {
     }
     // ---- summaries
     let agg = std::mem::take(&mut c.agg);
-    for ((f, cls, o), n) in agg {
-        c.out.rec(&json!({"k": "s", "fn": f, "in": cls, "o": o, "n": n.min(2_000_000_000), "probe": if o == "err" { "ok" } else { "-" }, "poisoned": "f", "nw": "t"}));
+    for ((f, cls, o, nw), n) in agg {
+        c.out.rec(&json!({"k": "s", "fn": f, "in": cls, "o": o, "n": n.min(2_000_000_000), "probe": if o == "err" && nw != "p" { "ok" } else { "-" }, "poisoned": "f", "nw": nw}));
     }
     c.out.rec(&json!({"k": "m", "calls": c.calls.min(2_000_000_000), "bad": c.bad, "rebuilds": c.rebuilds.min(2_000_000_000), "ok": c.counts[0].min(2_000_000_000),
                       "err": c.counts[1].min(2_000_000_000), "panic": c.counts[2], "timeout": c.counts[3], "worker": worker, "skipped": c.skipped}));
